@@ -2,7 +2,7 @@
 # tools/verify_mutant.sh <ID>  -- independent confirmation of a sub-agent's seeded change in a fresh scratch worktree:
 #   (1) patch applies to /repo HEAD, (2) unedited suite passes with it, (3) the demo fails with it, (4) the demo passes without it
 set -u
-id="$1"; src="/tmp/mut/$id/OUT"; wt="/tmp/vm_$id"
+id="$1"; src="${MUTROOT:-/tmp/mut}/$id/OUT"; wt="/tmp/vm_$id"
 low=$(echo "$id" | tr A-Z a-z)
 rm -rf "$wt"; git -C /repo worktree add -q --detach "$wt" HEAD || exit 9
 export CARGO_TARGET_DIR="$wt/target" CARGO_NET_OFFLINE=true
